@@ -788,7 +788,7 @@ void World::deliver(InFlight& f)
     }
     const bool passNull = (n == 0 && plan.cfgGet("nullbuf", 0));
     std::vector<cmpfb::Operand> cmpOps;
-    if (cmpFeedback && f.depth < 3 && derivedLeft > 0 && n >= 8 && f.allocFail < 0)
+    if (cmpFeedback && (is("C02") || is("C04") || is("C15") || is("C17") || is("C18")) && f.depth < 3 && derivedLeft > 0 && n >= 8 && f.allocFail < 0)
         cmpfb::arm(&cmpOps);
     std::vector<lib::PacketRef> out = dec->decode(passNull ? nullptr : buf, n, f.allocFail);
     cmpfb::disarm();
